@@ -53,6 +53,8 @@ def term(b: Built, x):
 
 def boolean(b: Built, x):
     op = x["op"]
+    if op in ("pytrue", "pyfalse"):
+        return op == "pytrue"      # a plain Python bool (Implies / IfThenElse: condition: Union[z3.BoolRef, bool])
     if op == "true":
         return z3.BoolVal(True)
     if op == "false":
@@ -264,9 +266,19 @@ def make_objective(b: Built, o, p):
     return obj
 
 
-def build(p, quiet=True, roundtrip=False) -> Built:
+def build(p, quiet=True, roundtrip=False, early_solver=None, two_phase=False, interleave=False) -> Built:
     """roundtrip=True: every task and plain worker is first created in a scratch problem, dumped with
-    to_json() and re-created in the real problem with SchedulingProblem.add_from_json()."""
+    to_json() and re-created in the real problem with SchedulingProblem.add_from_json().
+
+    Declaration-order variants (the model that results is the same, so V(P) is the same):
+    early_solver=<solver kwargs>: the SchedulingSolver is created right after the (still empty) problem and the
+        model is completed afterwards; make_solver() then hands out that solver;
+    two_phase=True: the model is declared without the requirements / buffer accesses of the last task that has
+        some, and without constraints, indicators and objectives; a first solver solves that part; the rest is
+        declared afterwards (the caller then creates a NEW solver);
+    interleave=True: right after the first requirement on each plain worker, a resource constraint that cannot
+        bind anything (ResourceUnavailable / WorkLoad beyond the horizon) is declared on it, before the other
+        requirements."""
     b = Built()
     task_json, worker_json = [], {}
     if roundtrip:
@@ -287,6 +299,17 @@ def build(p, quiet=True, roundtrip=False) -> Built:
     if p.get("start_time"):
         kw["start_time"] = datetime.datetime.fromisoformat(p["start_time"][0])
     b.problem = ps.SchedulingProblem(**kw)
+    b.early_solver = None
+    if early_solver is not None:
+        with silence():
+            b.early_solver = ps.SchedulingSolver(problem=b.problem, **early_solver)
+    # the task whose requirements / buffer accesses are declared in the second phase
+    late = None
+    if two_phase:
+        with_acc = sorted({r["task"] for r in p["reqs"]} | {op["task"] for bf in p["buffers"] for op in bf["ops"]})
+        late = with_acc[-1] if with_acc else None
+    interleave = interleave and p["user_horizon"]
+    seen_workers = set()
     for i, tk in enumerate(p["tasks"]):
         b.tasks.append(b.problem.add_from_json(task_json[i]) if roundtrip else make_task(tk))
     # workers: plain ones directly, unit workers through their cumulative worker
@@ -318,20 +341,30 @@ def build(p, quiet=True, roundtrip=False) -> Built:
         members = s.get("members") or [{"t": "worker", "i": i} for i in s["workers"]]
         b.selects.append(ps.SelectWorkers(name=s["name"], list_of_workers=[resource(b, m) for m in members],
                                           nb_workers_to_select=s["n"], kind=s["kind"]))
-    for r in p["reqs"]:
+    def declare_req(r):
         t = b.tasks[r["task"] - 1]
         if r["type"] == "worker":
             t.add_required_resource(b.workers[r["ref"] - 1], dynamic=r["dynamic"],
                                     delay_in=r["delay_in"], early_out=r["early_out"])
-            b.req_objs.append(b.workers[r["ref"] - 1])
+            req_objs[id(r)] = b.workers[r["ref"] - 1]
+            if interleave and r["ref"] not in seen_workers:
+                seen_workers.add(r["ref"])
+                far = p["H"] + 2
+                ps.ResourceUnavailable(resource=b.workers[r["ref"] - 1], list_of_time_intervals=[(far, far + 1)])
+                ps.WorkLoad(resource=b.workers[r["ref"] - 1], dict_time_intervals_and_bound={(far, far + 1): 1}, kind="max")
         elif r["type"] == "select":
             t.add_required_resource(b.selects[r["ref"] - 1])
-            b.req_objs.append(b.selects[r["ref"] - 1])
+            req_objs[id(r)] = b.selects[r["ref"] - 1]
         else:
             before = set(b.problem.select_workers)
             t.add_required_resource(b.cumuls[r["ref"] - 1])
             new = [n for n in b.problem.select_workers if n not in before]
-            b.req_objs.append(b.problem.select_workers[new[0]] if new else None)
+            req_objs[id(r)] = b.problem.select_workers[new[0]] if new else None
+
+    req_objs = {}
+    for r in p["reqs"]:
+        if r["task"] != late:
+            declare_req(r)
     for bi, bf in enumerate(p["buffers"]):
         cls = ps.ConcurrentBuffer if bf["concurrent"] else ps.NonConcurrentBuffer
         kwb = {"name": bf["name"]}
@@ -340,11 +373,29 @@ def build(p, quiet=True, roundtrip=False) -> Built:
             if bf[k]:
                 kwb[f] = bf[k][0]
         b.buffers.append(cls(**kwb))
-    for bi, bf in enumerate(p["buffers"]):
-        for oi, op in enumerate(bf["ops"]):
-            cls = ps.TaskLoadBuffer if op["kind"] == "load" else ps.TaskUnloadBuffer
-            b.bufops.append((bi, oi, cls(name=op["name"], task=b.tasks[op["task"] - 1],
-                                         buffer=b.buffers[bi], quantity=op["q"])))
+    def declare_ops(when_late):
+        for bi, bf in enumerate(p["buffers"]):
+            for oi, op in enumerate(bf["ops"]):
+                if (op["task"] == late) != when_late:
+                    continue
+                cls = ps.TaskLoadBuffer if op["kind"] == "load" else ps.TaskUnloadBuffer
+                b.bufops.append((bi, oi, cls(name=op["name"], task=b.tasks[op["task"] - 1],
+                                             buffer=b.buffers[bi], quantity=op["q"])))
+
+    declare_ops(False)
+    if late is not None:
+        # first phase: solve what has been declared so far with a solver of its own, then complete the model
+        with silence():
+            try:
+                ps.SchedulingSolver(problem=b.problem).solve()
+            except Exception:  # whatever the partial model gives is not judged
+                pass
+        for r in p["reqs"]:
+            if r["task"] == late:
+                declare_req(r)
+        declare_ops(True)
+        b.bufops.sort(key=lambda x: (x[0], x[1]))
+    b.req_objs = [req_objs[id(r)] for r in p["reqs"]]
     for ind in p["inds"]:
         b.inds.append(make_indicator(b, ind))
     for c in p["cons"]:
@@ -362,6 +413,9 @@ def silence():
 
 
 def make_solver(b: Built, **kw):
+    if getattr(b, "early_solver", None) is not None:
+        s, b.early_solver = b.early_solver, None    # created before the model was declared (build(early_solver=...))
+        return s
     with silence():
         s = ps.SchedulingSolver(problem=b.problem, **kw)
     return s
